@@ -26,6 +26,9 @@ namespace CRes
 instance : Monad CRes where
   pure := .ok
   bind := bind
+def toOption {α} : CRes α → Option α
+  | .ok v => some v
+  | _ => none
 @[simp] theorem bind_ok {α β} (v : α) (f : α → CRes β) : (CRes.ok v >>= f) = f v := rfl
 @[simp] theorem pure_eq {α} (v : α) : (pure v : CRes α) = .ok v := rfl
 end CRes
@@ -91,13 +94,13 @@ def encLoop (v : Variant) : List Byte → Nat → Nat → Bool → List Byte →
           pure ⟨w, dst, code, rest.length + 1⟩
         else do
           -- end of code block
-          let w ← wr w (dst + 1 - (code + 1)) (UInt8.ofNat (code + 1))
+          let w ← wr w (dst - code) (UInt8.ofNat (code + 1))
           if dst + 2 = win.length then do
             let w ← wr w (dst + 1) 1
             pure ⟨w, dst + 2, 1, rest.length⟩
           else encLoop v w (dst + 2) 1 false rest
       else if dst + 1 = win.length then do
-        let w ← wr w (dst + 1 - (code + 1)) (UInt8.ofNat (code + 1))
+        let w ← wr w (dst - code) (UInt8.ofNat (code + 1))
         pure ⟨w, dst + 1, code + 1, rest.length⟩
       else encLoop v w (dst + 1) (code + 1) false rest
 
@@ -210,6 +213,41 @@ def encode (c : Codec) (st : EncState) (win : List Byte) (src : Option (List Byt
   match c with
   | .cobs v => if v.tail then encodeCobsR v st win src else encodeCobs v st win src
   | .command => encodeString st win src
+
+/-- A caller of the encoder (the shape of every retry loop in the library: `mpt_array_push`,
+    `mpt_queue_push`): hands the pieces over one after the other, re-pushes what was not taken, and
+    enlarges the window by the next entry of `caps` whenever the encoder took less than offered or
+    asked for space; finally terminates the message.  `caps` is an arbitrary growth schedule, `fuel`
+    bounds the number of encoder calls. -/
+def encodeSched (c : Codec) (fill : Byte) : Nat → EncState → List Byte → List (List Byte) → List Nat → CRes EncOut
+  | 0, _, _, _, _ => .err .MissingBuffer
+  | f + 1, st, win, [], caps =>
+    match encode c st win none with
+    | .ok o => .ok o
+    | .err e =>
+      if e = .MissingBuffer then
+        match caps with
+        | [] => .err .MissingBuffer
+        | k :: caps => encodeSched c fill f st (win ++ List.replicate k fill) [] caps
+      else .err e
+    | .oob => .oob
+    | .unmodelled => .unmodelled
+  | f + 1, st, win, ch :: rest, caps =>
+    match encode c st win (some ch) with
+    | .ok o =>
+      if o.ret = ch.length then encodeSched c fill f o.st o.win rest caps
+      else
+        match caps with
+        | [] => .err .MissingBuffer
+        | k :: caps => encodeSched c fill f o.st (o.win ++ List.replicate k fill) (ch.drop o.ret :: rest) caps
+    | .err e =>
+      if e = .MissingBuffer then
+        match caps with
+        | [] => .err .MissingBuffer
+        | k :: caps => encodeSched c fill f st (win ++ List.replicate k fill) (ch :: rest) caps
+      else .err e
+    | .oob => .oob
+    | .unmodelled => .unmodelled
 
 /-! ### `mpt_array_push` -/
 
